@@ -27,11 +27,23 @@ def fr(x: float) -> str:
     return f"{a}/{b}"
 
 
-def runners(n: int):
+def runners(n: int, slot_s: float | None = None):
+    """the active runners as the orchestrator lists them; with `slot_s` each one carries a recorded last execution of the services
+    (none, short, nearly a window, longer than its slot, longer than the cycle): what a run NEEDED says nothing about when one may START,
+    the windows of the model do not depend on it"""
+    from datetime import timedelta
+
     from pynenc.orchestrator.atomic_service import ActiveRunnerInfo
 
     t0 = datetime(2024, 1, 1, tzinfo=UTC)
-    return [ActiveRunnerInfo(f"r{i}", t0, t0, True) for i in range(n)]
+    if slot_s is None:
+        return [ActiveRunnerInfo(f"r{i}", t0, t0, True) for i in range(n)]
+    factors = [None, 0.1, 0.9, 1.07, 1.7, 3.0 * n]
+    out = []
+    for i in range(n):
+        f = factors[(i + n) % len(factors)]
+        out.append(ActiveRunnerInfo(f"r{i}", t0, t0, True) if f is None else ActiveRunnerInfo(f"r{i}", t0, t0, True, t0, t0 + timedelta(seconds=slot_s * f)))
+    return out
 
 
 def instants(ctx: Ctx, imin: float, mmin: float, n: int, cst) -> list[float]:
@@ -246,29 +258,41 @@ def system_level(ctx: Ctx) -> None:
             for r in ("rA", "rB", "rC"):
                 o4.register_runner_heartbeats([r], can_run_atomic_service=True)
                 clock.advance(1_000)
-            base = clock.us // 1_000_000 % 240
-            clock.advance((240 - base) * 1_000_000)
-            owner_at: list[str | None] = []
-            for sec in range(240):
-                auth = [r for r in ("rA", "rB", "rC") if o4.should_run_atomic_service(rctx(r))]
-                owner_at.append(auth[0] if len(auth) == 1 else ("+".join(auth) if auth else None))
-                clock.advance(1_000_000)
-                ctx.count()
-            gaps = []
-            last_owner, last_t = None, None
-            for sec, w in enumerate(owner_at):
-                if w is not None:
-                    if last_owner is not None and w != last_owner:
-                        gaps.append((sec - last_t, last_owner, w, last_t, sec))
-                    last_owner, last_t = w, sec
-            conf_margin = app4.conf.atomic_service_spread_margin_minutes
-            ctx.distinct((kind, "configured-margin", tuple(g[0] for g in gaps)))
-            small = [g for g in gaps if g[0] < 30]
-            if small or any(w and "+" in w for w in owner_at):
-                g = small[0] if small else None
-                ctx.report(f"margin-not-kept[{kind}]:configured-fraction", f"[{kind}] interval 4 min, margin configured 0.5 min (the application reads {conf_margin!r}), three runners, asked every second: "
-                                                                           + (f"{g[1]} is still authorised at +{g[3]} s and {g[2]} already at +{g[4]} s (gap {g[0]} s < 30 s)" if g else "two runners authorised at once"),
-                           {"kind": "system-margin", "backend": kind, "gaps": [x[0] for x in gaps]})
+            from datetime import timedelta as _td
+
+            for recorded in (False, True):
+                if recorded:
+                    # the runners have executed the services before: one run took longer than its window, one longer than its whole slot
+                    now = datetime.fromtimestamp(clock.us / 1e6, tz=UTC)
+                    for r, dur in (("rA", 85.0), ("rB", 60.0), ("rC", 10.0)):
+                        o4.record_atomic_service_execution(r, now - _td(seconds=dur), now)
+                base = clock.us // 1_000_000 % 240
+                clock.advance((240 - base) * 1_000_000)
+                owner_at: list[str | None] = []
+                for sec in range(480 if recorded else 240):
+                    if sec % 20 == 0:
+                        o4.register_runner_heartbeats(["rA", "rB", "rC"], can_run_atomic_service=True)
+                    auth = [r for r in ("rA", "rB", "rC") if o4.should_run_atomic_service(rctx(r))]
+                    owner_at.append(auth[0] if len(auth) == 1 else ("+".join(auth) if auth else None))
+                    clock.advance(1_000_000)
+                    ctx.count()
+                gaps = []
+                last_owner, last_t = None, None
+                for sec, w in enumerate(owner_at):
+                    if w is not None:
+                        if last_owner is not None and w != last_owner:
+                            gaps.append((sec - last_t, last_owner, w, last_t, sec))
+                        last_owner, last_t = w, sec
+                conf_margin = app4.conf.atomic_service_spread_margin_minutes
+                ctx.distinct((kind, "configured-margin", recorded, tuple(g[0] for g in gaps)))
+                small = [g for g in gaps if g[0] < 30]
+                if small or any(w and "+" in w for w in owner_at):
+                    g = small[0] if small else None
+                    ctx.report(f"margin-not-kept[{kind}]:{'recorded-executions' if recorded else 'configured-fraction'}",
+                               f"[{kind}] interval 4 min, margin configured 0.5 min (the application reads {conf_margin!r}), three runners"
+                               + (" whose last recorded executions took 85 s, 60 s and 10 s" if recorded else "") + ", asked every second: "
+                               + (f"{g[1]} is still authorised at +{g[3]} s and {g[2]} already at +{g[4]} s (gap {g[0]} s < 30 s)" if g else "two runners authorised at once"),
+                               {"kind": "system-margin", "backend": kind, "recorded": recorded, "gaps": [x[0] for x in gaps]})
     finally:
         rb.time = real_time_mod
         clock.uninstall()
@@ -298,8 +322,8 @@ def run(ctx: Ctx) -> None:
 
     nd_slot = nd_can = nfmod = 0
     lines, impl = [], []
-    for (n, iv, mg) in cfgs:
-        act = runners(n)
+    for ci, (n, iv, mg) in enumerate(cfgs):
+        act = runners(n, iv * 60 / n if ci % 2 else None)      # every other configuration: runners with recorded executions
         cst = lambda p, n_, i_, m_: A.calculate_time_slot(p, n_, i_, m_, None)
         # --- slots
         slots = []
